@@ -345,6 +345,13 @@ func (f *FieldCopyToGenerator) genListOrMap() *j.Statement {
 				)
 			})
 
+			if f.IsRepeated {
+				// A nil source list must not leave the elements of an earlier state behind
+				g.If(j.Id(fieldName)).Op("==").Nil().Block(
+					j.Id("c.Elems").Op("=").Add(mk),
+				)
+			}
+
 			g.Id("c.Unknown").Op("=").False()
 			g.Id("tf.Attrs").Index(j.Lit(f.NameSnake)).Op("=").Id("c")
 		})
